@@ -7,6 +7,8 @@ key-holding TLS peer (G4, vlib/tlspeer.py).  Oracle: receive_datagram returns
 normally and next_event / datagrams_to_send / get_timer / handle_timer keep
 returning normally until ConnectionTerminated is reported.
 """
+import collections
+
 PROPERTY = "C05"
 LEVEL = "exploration"
 RULE = (
@@ -390,6 +392,193 @@ def frames_task(ctx, examples, shard):
     run_hypothesis(ctx, body, strat, examples, shard=shard)
 
 
+# ------------------------------------------------------------------------------------------------ frames in the Initial / 0-RTT / Handshake epochs
+
+
+def epoch_strategy():
+    from hypothesis import strategies as st
+
+    fr = frame_strategy()
+    pkt = st.lists(fr, min_size=1, max_size=3)
+    return st.fixed_dictionaries(
+        {
+            "kind": st.just("epochs"), "where": st.sampled_from(["zrtt-server", "zrtt-server", "initial-server", "handshake-server", "initial-client", "handshake-client"]),
+            "packets": st.lists(pkt, min_size=1, max_size=5), "early_data": st.sampled_from([0, 5, 2000]), "then_finish": st.booleans(),
+        }
+    )
+
+
+class _Enc(Driver):
+    """frame encoder of the Driver without a takeover behind it"""
+
+    def __init__(self):
+        import types
+
+        self.tk = types.SimpleNamespace(sut_packets=[], wire=types.SimpleNamespace(largest=collections.defaultdict(lambda: -1)), X="s")
+        self.challenges = []
+
+
+def epochs_case(ctx, case):
+    """frames of every type, from a peer holding the keys of that epoch, in Initial, 0-RTT and Handshake packets"""
+    import io
+
+    from aioquic.quic.connection import QuicConnection
+    from vlib import endpoints as E, refquic as R, tlspeer as P
+    from vlib.harness import exc_signature
+
+    enc = _Enc()
+    where = case["where"]
+    state = {"dead": False, "progress": False}
+
+    def guard(what, fn, *a, **k):
+        if state["dead"]:
+            return None
+        try:
+            return fn(*a, **k)
+        except Exception as e:  # noqa
+            state["dead"] = True
+            ctx.violation("api-raised-" + exc_signature(e), "%s raised %r while a key-holding peer sent frames in the %s epoch" % (what, e, where), case)
+            return None
+
+    def settle(conn, now):
+        for _ in range(3):
+            while not state["dead"]:
+                e = guard("next_event", conn.next_event)
+                if e is None:
+                    break
+                state["progress"] = True
+                if type(e).__name__ == "ConnectionTerminated":
+                    state["terminated"] = True
+            guard("datagrams_to_send", conn.datagrams_to_send, now)
+            guard("get_timer", conn.get_timer)
+
+    def run_timers(conn, now):
+        for _ in range(30):
+            if state["dead"] or state.get("terminated"):
+                break
+            t = guard("get_timer", conn.get_timer)
+            if t is None:
+                break
+            now = max(now, t)
+            guard("handle_timer", conn.handle_timer, now)
+            settle(conn, now)
+
+    payloads = [b"".join(enc.encode(spec, tr) for spec, tr in pkt) for pkt in case["packets"]]
+    with E.pinned(("c05-epochs", where)):
+        if where == "zrtt-server":
+            store = {}
+            got = []
+            kw = dict(max_datagram_frame_size=65536)
+            c0 = QuicConnection(configuration=E.client_config(**kw), session_ticket_handler=got.append)
+            c0.connect(E.SERVER_ADDR, now=0.0)
+            s0 = QuicConnection(configuration=E.server_config(**kw), original_destination_connection_id=c0.original_destination_connection_id, session_ticket_fetcher=store.pop, session_ticket_handler=lambda t: store.__setitem__(t.ticket, t))
+            now = 0.0
+            for _ in range(6):
+                now += 0.001
+                E.transfer(c0, s0, now, E.CLIENT_ADDR)
+                now += 0.001
+                E.transfer(s0, c0, now, E.SERVER_ADDR)
+            if not got:
+                raise RuntimeError("harness: no session ticket")
+            keylog = io.StringIO()
+            ccfg = E.client_config(secrets_log_file=keylog, **kw)
+            ccfg.session_ticket = got[0]
+            client = QuicConnection(configuration=ccfg)
+            client.connect(E.SERVER_ADDR, now=now)
+            if case["early_data"]:
+                client.send_stream_data(0, bytes(case["early_data"]), end_stream=False)
+            server = QuicConnection(configuration=E.server_config(**kw), original_destination_connection_id=client.original_destination_connection_id, session_ticket_fetcher=lambda k: store.pop(k, None), session_ticket_handler=lambda t: store.__setitem__(t.ticket, t))
+            first = client.datagrams_to_send(now=now)
+            info = R.split_datagram(first[0][0], 8)[0]
+            for d, _ in first:
+                now += 0.001
+                guard("receive_datagram", server.receive_datagram, d, E.CLIENT_ADDR, now)
+            settle(server, now)
+            secrets = R.parse_keylog(keylog.getvalue())
+            early = [v for (label, _), v in secrets.items() if label == "CLIENT_EARLY_TRAFFIC_SECRET"]
+            if not early:
+                ctx.case(("epochs", repr(case)), nontrivial=False, classes=["epochs:" + where, "epochs:no-early-secret"])
+                return
+            cs = int(client.tls.key_schedule.cipher_suite) if client.tls.key_schedule is not None else int(client.tls._key_schedule_psk.cipher_suite)
+            keys = R.derive_keys(P.SUITE[cs], R.V1, early[0])
+            pn = 20
+            for payload in payloads:
+                if len(payload) < 4:
+                    payload = payload + bytes(4 - len(payload))
+                hdr = R.build_long_header(R.V1, R.PT_ZERO_RTT, info.dcid, info.scid, pn, 2, len(payload), length_size=2)
+                now += 0.001
+                guard("receive_datagram", server.receive_datagram, R.protect(keys, hdr, pn, payload, strict=False), E.CLIENT_ADDR, now)
+                pn += 1
+                settle(server, now)
+            if case["then_finish"] and not state["dead"]:
+                for _ in range(4):
+                    now += 0.001
+                    for d, _ in guard("datagrams_to_send", server.datagrams_to_send, now) or []:
+                        client.receive_datagram(d, E.SERVER_ADDR, now)
+                    now += 0.001
+                    for d, _ in client.datagrams_to_send(now):
+                        guard("receive_datagram", server.receive_datagram, d, E.CLIENT_ADDR, now)
+                    settle(server, now)
+            run_timers(server, now)
+            sut = server
+        else:
+            sut_is_server = where.endswith("server")
+            space = where.split("-")[0]
+            if sut_is_server:
+                peer = P.ClientPeer()
+                ch = peer.ref.client_hello()
+                if space == "initial":
+                    # frames before, with and after the ClientHello in Initial packets
+                    guard("receive_datagram", peer.send_crypto, "initial", ch, pad_to=1200, extra_frames=[])
+                else:
+                    guard("receive_datagram", peer.send_crypto, "initial", ch, pad_to=1200)
+                    guard("pump", peer.pump_sut)
+                    sh, hs = peer.server_flight()
+                    try:
+                        peer.ref.receive_server_flight(sh)
+                        peer.after_server_hello()
+                        peer.reopen()
+                    except Exception:  # noqa - reference side could not follow: nothing to send in the handshake space
+                        ctx.case(("epochs", repr(case)), nontrivial=False, classes=["epochs:" + where, "epochs:no-handshake-keys"])
+                        return
+            else:
+                peer = P.ServerPeer()
+                peer.ref.receive_client_hello(peer.client_hello)
+                sh = peer.ref.server_hello()
+                peer.after_server_hello()
+                if space == "handshake":
+                    guard("receive_datagram", peer.send_crypto, "initial", sh, pad_to=1200, extra_frames=[{"name": "ack", "acked": [(0, 0)], "delay": 0}])
+            guard("pump", peer.pump_sut)
+            for payload in payloads:
+                if len(payload) < 4:
+                    payload = payload + bytes(4 - len(payload))
+                try:
+                    dg = peer.packet(space, payload, pad_to=1200 if (space == "initial") else 0)
+                except Exception:  # noqa - reference-side builder refused (oversized)
+                    continue
+                guard("receive_datagram", peer.deliver, dg)
+                n = len(peer.events)
+                guard("pump", peer.pump_sut)
+                if len(peer.events) > n:
+                    state["progress"] = True
+                if peer.terminated is not None:
+                    state["terminated"] = True
+            sut = peer.sut
+            run_timers(sut, peer.now + 0.001)
+    ctx.case(("epochs", repr(case)), nontrivial=True, classes=["epochs:" + where, "epochs:" + ("terminated" if state.get("terminated") else "alive")] + ["epochs:frame-" + spec["name"] for pkt in case["packets"] for spec, _ in pkt][:6])
+
+
+def epochs_task(ctx, examples, shard):
+    from vlib.harness import run_hypothesis
+
+    def body(ctx, case):
+        epochs_case(ctx, case)
+        if ctx.want_sample():
+            ctx.sample({"where": case["where"], "packets": [[spec["name"] for spec, _ in pkt] for pkt in case["packets"]]})
+
+    run_hypothesis(ctx, body, epoch_strategy(), examples, shard=shard)
+
+
 # ------------------------------------------------------------------------------------------------ G1 / G2
 
 
@@ -614,6 +803,8 @@ def replay(ctx, case):
         from props import C18
 
         C18.run_history(ctx, dict(case, ops=[tup(o) for o in case["ops"]]), check=False)
+    elif case.get("kind") == "epochs":
+        epochs_case(ctx, dict(case, packets=[[tuple(x) for x in pkt] for pkt in case["packets"]]))
     else:
         from vlib import tlspeer
 
@@ -629,6 +820,8 @@ def plan(tier, seed):
         t.append(("raw-%d" % s, {"fn": "raw", "examples": 400 if q else 15000, "shard": s}))
     for s in range(2):
         t.append(("cid-histories-%d" % s, {"fn": "cid", "examples": 250 if q else 8000, "shard": s}))
+    for s in range(2):
+        t.append(("epochs-%d" % s, {"fn": "epochs", "examples": 250 if q else 10000, "shard": s}))
     try:
         from vlib import tlspeer
 
@@ -643,6 +836,8 @@ def run_task(ctx, name, fn, **kw):
         frames_task(ctx, kw["examples"], kw["shard"])
     elif fn == "raw":
         raw_task(ctx, kw["examples"], kw["shard"])
+    elif fn == "epochs":
+        epochs_task(ctx, kw["examples"], kw["shard"])
     elif fn == "cid":
         from props import C18
 
